@@ -875,6 +875,12 @@ def fixed_scenarios():
         "exec 0 { pfor 8 0 { work } } exec 1 { tg { run { work } run { work } } }",
         "exec 0 { tg { run { work } enq 1 { work } run { work } } }",
         "exec 1 { pfor 4 3 { work } }"]))
+    # the limit is lowered in mid-run while the arena has a long backlog of enqueued tasks: recalled workers (local pool empty) must leave although the arena
+    # is not empty; work that starts after they had the time to leave runs on at most N-1 workers
+    for (L0, N, held, ntask) in ((4, 2, 3, 60), (4, 3, 3, 60), (3, 2, 2, 50)):
+        S.append(("bud-lowered-%d-%d" % (L0, N), L0, [(L0, 1)], [
+            "exec 0 { " + " ".join(["enq 0 { spin 1 }"] * held) + " spinworkers 0 %d " % held + " ".join(["enq 0 { work work work }"] * ntask) +
+            " set 1 lim %d 0 20 { waitenq } }" % N]))
     S.append(("bud-l1-pfor", 1, [(3, 1)], ["exec 0 { pfor 6 0 { work } tg { run { work } run { work } } } quiesce 0 exec 0 { pfor 4 3 { work } }"]))
     # --- observers ------------------------------------------------------------------------------------------------------
     S.append(("obs-basic", 3, [(3, 1)], [
